@@ -22,6 +22,7 @@ Non-interference argument in four structural legs:
  Ra alias mutation: a local that still names a list of another object (not copied) is never mutated in place.
  R8 same request  : compare_reqs compares the same attribute of both requests (shared with C19-R8).
  Rn arg roles     : a variable named like a parameter of the callee is handed to that parameter (no exchanged roles).
+ R9 spectrum commit: spectrum maps are written only for served requests (shared with C14-R1/R2).
 """
 import ast
 
@@ -381,6 +382,16 @@ def rn_arg_roles(ctx):
     ctx.check('Rn.arg-roles', 'argument / parameter name scan', True, 'C16|arg-roles-scan', '', f'{n} argument(s) named like another parameter judged')
 
 
+def r9_spectrum_commit(ctx):
+    """R9: the one piece of state requests legitimately share - the spectrum maps - is written only for requests that are served:
+    commit-after-check and scratch freshness of the spectrum assignment (shared with C14-R1/R2); a blocked request must not
+    change what later requests find"""
+    from .c14 import r2_commit, r1_fresh
+    from .common import proxy
+    r1_fresh(proxy(ctx, 'R9'))
+    r2_commit(proxy(ctx, 'R9'))
+
+
 from ..memo import rule_for as _memo_rule
 
 RULES_MEMO = ('Rm.memo', _memo_rule('C16', 'requests would share a result'))
@@ -390,4 +401,4 @@ from ..presence import rule_for as _presence_rule
 
 RULES_PRESENCE = ('Rp.presence', _presence_rule('C16', 'a legal zero would be read as missing'))
 
-RULES = [('R5.memo', r5_memo), ('R1.isolation', r1_isolation), ('R2.no-leak', r2_no_leak), ('R3.redesign', r3_redesign), ('R4.shared', r4_shared), RULES_MEMO, RULES_PRESENCE, ('R6.carried', r6_carried), ('R7.defaults', r7_defaults), ('Re.for-each', re_foreach), ('Ra.alias-mutation', ra_alias), ('R8.same-request', r8_same_request), ('Rn.arg-roles', rn_arg_roles)]
+RULES = [('R5.memo', r5_memo), ('R1.isolation', r1_isolation), ('R2.no-leak', r2_no_leak), ('R3.redesign', r3_redesign), ('R4.shared', r4_shared), RULES_MEMO, RULES_PRESENCE, ('R6.carried', r6_carried), ('R7.defaults', r7_defaults), ('Re.for-each', re_foreach), ('Ra.alias-mutation', ra_alias), ('R8.same-request', r8_same_request), ('Rn.arg-roles', rn_arg_roles), ('R9.spectrum-commit', r9_spectrum_commit)]
